@@ -22,6 +22,8 @@ pub enum Profile {
     Limits,
     /// hostile transport: errors, zero writes, EOF anywhere (C07)
     Hostile,
+    /// write buffers smaller than the frames that have to go through them (C07, C14)
+    Tinybuf,
 }
 
 pub fn profile_of(name: &str) -> Profile {
@@ -35,6 +37,7 @@ pub fn profile_of(name: &str) -> Profile {
         "utf8" => Profile::Utf8,
         "limits" => Profile::Limits,
         "hostile" => Profile::Hostile,
+        "tinybuf" => Profile::Tinybuf,
         _ => panic!("unknown profile {name}"),
     }
 }
@@ -68,6 +71,11 @@ pub const INVALID_UTF8: &[&[u8]] = &[
     &[0xc3],
     &[0x61, 0x80, 0x62],
     &[0xe2, 0x28, 0xa1],
+    // a multi-byte character interrupted by text that is valid on its own
+    &[0xc3, 0x61, 0xa9],
+    &[0xe2, 0x82, 0x6f, 0x6b, 0xac],
+    &[0x78, 0xf0, 0x9f, 0xc3, 0xa9, 0x21, 0x98, 0x80, 0x7a],
+    &[0xf0, 0x61, 0x9f, 0x62, 0x98, 0x63, 0x80],
 ];
 
 pub fn utf8_text(rng: &mut Rng) -> Vec<u8> {
@@ -175,7 +183,13 @@ impl PeerGen {
             payload(rng, n)
         };
         let opcode = if text { 1 } else { 2 };
-        let nfrag = if rng.chance(1, 3) { rng.range(2, 4) } else { 1 };
+        let nfrag = if text && text_kind == 1 {
+            if rng.chance(2, 3) { rng.range(2, 6) } else { 1 }
+        } else if rng.chance(1, 3) {
+            rng.range(2, 4)
+        } else {
+            1
+        };
         if nfrag == 1 {
             return self.frame(rng, true, opcode, &body);
         }
@@ -273,6 +287,11 @@ pub fn gen_cfg(rng: &mut Rng, prof: Profile) -> CaseCfg {
             (w, m)
         }
         Profile::Sizes => (*rng.pick(&[0usize, 1, 4096, 131072]), None),
+        Profile::Tinybuf => {
+            // the maximum may be smaller than a control frame that has to be sent
+            let w = *rng.pick(&[0usize, 0, 1, 5]);
+            (w, Some(w + 1 + rng.below(140)))
+        }
         _ => {
             let w = *rng.pick(&[0usize, 0, 1, 10, 100, 131072]);
             // at least the largest single frame used by these profiles (300 + 14 bytes)
@@ -388,7 +407,7 @@ pub fn gen_endpoint(rng: &mut Rng, prof: Profile, id: usize) -> Vec<String> {
     let mut lines = vec![format!("case endpoint {prof:?}-{id}")];
     let sizes: &[usize] = match prof {
         Profile::Sizes => BIG_SIZES,
-        Profile::Backpressure => SMALL_SIZES,
+        Profile::Backpressure | Profile::Tinybuf => SMALL_SIZES,
         _ => SIZES,
     };
     let text_kind: u8 = if prof == Profile::Utf8 || prof == Profile::Codec { 1 } else { 0 };
@@ -418,6 +437,7 @@ pub fn gen_endpoint(rng: &mut Rng, prof: Profile, id: usize) -> Vec<String> {
         Profile::Codec | Profile::Utf8 | Profile::Limits => (20, 0, 0, 0, 0),
         Profile::Close => (10, 3, 3, 4, 1),
         Profile::Backpressure => (8, 6, 4, 2, 2),
+        Profile::Tinybuf => (8, 5, 5, 2, 2),
         Profile::Ping => (10, 3, 3, 1, 3),
         Profile::Sizes => (4, 8, 3, 0, 0),
         Profile::Hostile => (8, 4, 3, 2, 1),
@@ -435,7 +455,7 @@ pub fn gen_endpoint(rng: &mut Rng, prof: Profile, id: usize) -> Vec<String> {
             for _ in 0..rng.range(1, 3) {
                 let r = rng.below(100);
                 let item = match prof {
-                    Profile::Ping => match r {
+                    Profile::Ping | Profile::Tinybuf => match r {
                         0..=59 => {
                             let n = *rng.pick(&[0usize, 1, 2, 10, 125]);
                             let p = payload(rng, n);
@@ -517,7 +537,16 @@ pub fn gen_endpoint(rng: &mut Rng, prof: Profile, id: usize) -> Vec<String> {
             format!("op read {m}")
         } else if r < w_read + w_write {
             let n = *rng.pick(sizes);
+            let raw = matches!(prof, Profile::Mixed | Profile::Sizes | Profile::Hostile) && rng.chance(1, 8);
             match rng.below(10) {
+                _ if raw => {
+                    // a raw frame, as handed back by `WriteBufferFull` or built by the user: it may
+                    // already carry a masking key (a client must replace it, a server sends it masked)
+                    let key = if rng.chance(1, 2) { hex(&rng.mask()) } else { "-".to_string() };
+                    let (bits, opc) = *rng.pick(&[("1000", 2u8), ("1000", 1), ("0000", 2), ("1000", 0), ("1000", 9), ("1000", 10)]);
+                    let body = if opc == 1 { utf8_text(rng) } else { payload(rng, n.min(125)) };
+                    format!("op write frame {bits} {opc} {key} {} {m}", hex(&body))
+                }
                 0..=3 => format!("op write binary {} {m}", hex(&payload(rng, n))),
                 4..=6 => format!("op write text {} {m}", hex(&utf8_text(rng))),
                 7 | 8 => {
@@ -586,12 +615,93 @@ pub fn gen_maskpaths(rng: &mut Rng) -> Vec<Vec<String>> {
             lines.push("op read m=-".into());
             lines.push("end".into());
             cases.push(lines);
+            if pad % 2 == 0 {
+                // the same with unmasked client frames allowed: a masked frame is still unmasked,
+                // an unmasked one is delivered as it is
+                let mut lines = vec![format!("case endpoint maskpaths-u-{id}")];
+                lines.push("cfg role=server rbuf=4096 wbuf=0 maxw=inf maxmsg=none maxframe=none unmasked=1 pre=none".into());
+                let a = enc_frame(true, 0, 2, Some(rng.mask()), &payload(rng, pad), LenForm::Minimal);
+                let b = enc_frame(true, 0, 2, None, &payload(rng, len), LenForm::Minimal);
+                let c = enc_frame(true, 0, 2, Some(rng.mask()), &payload(rng, len), LenForm::Minimal);
+                lines.push(format!("peer {}{}{}", hex(&a).replace('-', ""), hex(&b), hex(&c)));
+                lines.push("op read m=-".into());
+                lines.push("op read m=-".into());
+                lines.push("op read m=-".into());
+                lines.push("end".into());
+                cases.push(lines);
+            }
             // encode into the shared write buffer
             let mut lines = vec![format!("case endpoint maskpaths-w-{id}")];
             lines.push("cfg role=client rbuf=4096 wbuf=4096 maxw=inf maxmsg=none maxframe=none unmasked=0 pre=none".into());
             lines.push(format!("op write binary {} m={}", hex(&payload(rng, pad)), hex(&rng.mask())));
             lines.push(format!("op write binary {} m={}", hex(&payload(rng, len)), hex(&rng.mask())));
             lines.push("op flush m=-".into());
+            lines.push("end".into());
+            cases.push(lines);
+            id += 1;
+        }
+    }
+    cases
+}
+
+/// Every way of cutting some short byte strings (valid and invalid UTF-8, incl. characters
+/// interrupted by text that is valid on its own) into text fragments, for both roles.
+pub fn gen_utf8cuts(rng: &mut Rng) -> Vec<Vec<String>> {
+    let samples: &[&[u8]] = &[
+        &[0xc3, 0x61, 0xa9],
+        &[0xe2, 0x82, 0x6f, 0x6b, 0xac],
+        &[0x78, 0xf0, 0x9f, 0x79, 0x98, 0x80],
+        &[0xf0, 0x61, 0x9f, 0x62, 0x98, 0x63, 0x80],
+        &[0x61, 0xf0, 0x9f, 0x98, 0x80, 0x62],
+        &[0xe2, 0x82, 0xac, 0xc3, 0xa9],
+        &[0xc3, 0xa9, 0xc3],
+        &[0xed, 0xa0, 0x80, 0x61],
+        &[0xf4, 0x8f, 0xbf, 0xbf, 0x61],
+        &[0xf4, 0x90, 0x80, 0x80],
+        &[0xe0, 0xa0, 0x80, 0xe0, 0x9f, 0xbf],
+        &[0x61, 0x62, 0x63],
+        &[0xc2, 0x80, 0xdf, 0xbf],
+        &[0xf0, 0x90, 0x80, 0x80, 0xc3],
+    ];
+    let mut cases = Vec::new();
+    let mut id = 0;
+    for s in samples {
+        let n = s.len();
+        for cuts in 0u32..(1 << (n - 1)) {
+            let client = id % 2 == 0;
+            let pg = PeerGen { mask_frames: !client };
+            let mut frags: Vec<&[u8]> = Vec::new();
+            let mut start = 0;
+            for i in 0..n - 1 {
+                if cuts & (1 << i) != 0 {
+                    frags.push(&s[start..=i]);
+                    start = i + 1;
+                }
+            }
+            frags.push(&s[start..]);
+            // now and then an empty fragment in the middle
+            let with_empty = cuts % 5 == 3;
+            let mut bytes = Vec::new();
+            let total = frags.len();
+            for (i, f) in frags.iter().enumerate() {
+                let last = i == total - 1;
+                bytes.extend(pg.frame(rng, last, if i == 0 { 1 } else { 0 }, f));
+                if with_empty && !last {
+                    bytes.extend(pg.frame(rng, false, 0, &[]));
+                }
+            }
+            // a ping afterwards shows where the reader stands
+            bytes.extend(pg.frame(rng, true, 9, &[0x70]));
+            let mut lines = vec![format!("case endpoint utf8cuts-{id}")];
+            lines.push(format!(
+                "cfg role={} rbuf=4096 wbuf=0 maxw=inf maxmsg=none maxframe=none unmasked=0 pre=none",
+                if client { "client" } else { "server" }
+            ));
+            lines.push(format!("peer {}", hex(&bytes)));
+            lines.push(format!("script rd=- rddef=d{} wr=- wrdef=a{} fl=- fldef=o", 1usize << 40, 1usize << 40));
+            let m = masks_tok(rng, client, 2);
+            lines.push(format!("op read {m}"));
+            lines.push(format!("op read {m}"));
             lines.push("end".into());
             cases.push(lines);
             id += 1;
